@@ -54,6 +54,9 @@ type LOp struct {
 	Image     int     `json:"image,omitempty"`
 	IntoLib   int     `json:"into_lib,omitempty"`
 	Overwrite bool    `json:"overwrite,omitempty"`
+	// Multi > 0: a "build" op hands its rules over as TWO resources (rules[:Multi], rules[Multi:]) to
+	// BuildRuleFromResources instead of one resource to BuildRuleFromResource.
+	Multi int `json:"multi,omitempty"`
 }
 
 // LExtra is the payload of a library-history scenario.
@@ -182,6 +185,8 @@ func (lr *libRun) probeKB(li, ki int, when string, inst *ast.KnowledgeBase, mk m
 			lr.violate("instantiate-failed", fmt.Sprintf("%s: NewKnowledgeBaseInstance failed: %v", where, err))
 			return
 		}
+		// the direct probe first: it is the one that adopts what the statement leaves open
+		lr.fetchExec(where, inst, mk, adopt)
 		// stored and loaded again it must still be the same knowledge base
 		var buf bytes.Buffer
 		if err := lib.StoreKnowledgeBaseToWriter(&buf, name, ver); err != nil {
@@ -196,6 +201,7 @@ func (lr *libRun) probeKB(li, ki int, when string, inst *ast.KnowledgeBase, mk m
 				lr.fetchExec(where+" (after store and load)", i2, mk, nil)
 			}
 		}
+		return
 	}
 	lr.fetchExec(where, inst, mk, adopt)
 }
@@ -383,8 +389,15 @@ func (lr *libRun) step(oi int, op LOp) {
 				lr.model[op.Lib][op.KB] = mk // GetKnowledgeBase creates the knowledge base on first use
 			}
 			var berr error
+			multi := op.Op == "build" && op.Text == "" && op.Multi > 0 && op.Multi < len(op.Rules)
 			panicked := func() (p interface{}) {
 				defer func() { p = recover() }()
+				if multi {
+					res.Probes["build.two-resources"]++
+					berr = builder.NewRuleBuilder(lib).BuildRuleFromResources(name, ver, []pkg.Resource{
+						pkg.NewBytesResource([]byte(PlainText(op.Rules[:op.Multi]))), pkg.NewBytesResource([]byte(PlainText(op.Rules[op.Multi:])))})
+					return nil
+				}
 				berr = builder.NewRuleBuilder(lib).BuildRuleFromResource(name, ver, resrc)
 				return nil
 			}()
